@@ -21,8 +21,11 @@ type c19Form struct {
 	// NoMut: the form never reaches the registry in any mode (it raises on its arguments in the
 	// current implementation); exempt from the per-form non-vacuity demand
 	NoMut bool
-	// RegOnly: meaningful only against a registry host
-	Code string
+	// NoEffect: the form addresses something that is not there (a missing tag, a tag whose manifest is
+	// not stored): its normal run may send state-changing requests or edit the layout's index, but need
+	// not change anything; exempt from the per-form non-vacuity demand
+	NoEffect bool
+	Code     string
 }
 
 var c19Forms = []c19Form{
@@ -64,6 +67,9 @@ var c19Forms = []c19Form{
 
 	// ---- bindings documented as changing a registry or a layout
 	{Name: "tag.delete", API: "tag.delete", Mut: true, Rep: true, Code: `tag.delete(C.DEL); out("tag.delete done")`},
+	{Name: "tag.delete/missing", API: "tag.delete", Mut: true, NoEffect: true, Code: `out("tag.delete missing " .. try(function() tag.delete(C.REPO .. ":c19-no-such-tag"); return "done" end))`},
+	{Name: "tag.delete/unresolvable", API: "tag.delete", Mut: true, NoEffect: true, Code: `out("tag.delete unresolvable " .. try(function() tag.delete(C.REPO .. ":c19-dangling"); return "done" end))`},
+	{Name: "image.copy/missing-source", API: "image.copy", Mut: true, NoEffect: true, Code: `out("image.copy missing " .. try(function() image.copy(C.REPO .. ":c19-no-such-tag", C.REPO .. ":c19copym-" .. C.T); return "done" end))`},
 	{Name: "manifest:delete/head", API: "manifest.delete", Mut: true, Rep: true, Code: `local m = manifest.head(C.DEL3); m:delete(); out("m:delete done")`},
 	{Name: "manifest:delete/list", API: "manifest.delete", Mut: true, Code: `local m = manifest.getList(C.DEL3); m:delete(); out("m:delete list done")`},
 	// the same through references that already carry the digest (repo@digest string, and reference.new + r:digest)
